@@ -1,4 +1,5 @@
-(* C15 executable model (no proofs): UTF-8 codec, Quote / unquote / string
-   scanning (Quote.v), float text (Float.v).  The value printer and the
-   reader of printed values are in Value.v. *)
-From SV Require Export C15.Utf8 C15.Float C15.Quote.
+(* C15 executable model (no proofs): Go's UTF-8 codec (Utf8.v), binary64 text
+   (Float.v), syntax.Quote / unquote / the scanner's string-literal loop
+   (Quote.v), the value printer on trees and on cyclic heaps and the reader of
+   printed values (Value.v). *)
+From SV Require Export C15.Utf8 C15.Float C15.Quote C15.Value.
